@@ -365,7 +365,7 @@ theorem trackThread_shape {b b' : Bay} {mode sel inp out : Nat}
 /-! ### The emulator's thread / CPU topology -/
 
 /-- A two-level wiring satisfies the frame condition of every mux. -/
-theorem layered_frame' {b : Bay} {L : Nat} (hl : b.Layered L) (mi : Nat) (m : Mux)
+theorem frame_of_layered {b : Bay} {L : Nat} (hl : b.Layered L) (mi : Nat) (m : Mux)
     (hm : b.muxes[mi]? = some m) : b.Frame mi m := by
   intro mj m' hm'
   obtain ⟨_, _, ho', _⟩ := hl mj m' hm'
@@ -429,7 +429,7 @@ theorem topology_frame {L : Nat} {b : Bay} (h : Connected L b) :
         rcases getElem?_append_some hm with h | ⟨_, rfl⟩
         · exact hsh mi m h
         · exact Or.inr ⟨_, _, rfl, rfl, rfl⟩
-  exact ⟨key.1, key.2, fun mi m hm => layered_frame' key.1.layered mi m hm⟩
+  exact ⟨key.1, key.2, fun mi m hm => frame_of_layered key.1.layered mi m hm⟩
 
 /-- **topology_thread_rows**: in the connected network, at every instant
     (after any history of events writing source channels only), EVERY thread
@@ -498,6 +498,17 @@ theorem topology_cpu_rows {L : Nat} {b0 b b1 bF : Bay} {em : List (Nat × Value)
       ((hfr mi m hm).congr (hmx1.trans hmx)) (hw.weak wf (hwk mi m hm))
       (Or.inl (by rw [hct.selEq]; exact hd)) hp
     exact cpu_view_of_sync hct hs
+
+/-! ### The generated channel specs only use the modes the theorems cover -/
+
+/-- Every thread tracking mode in the (regenerated) channel specs of every
+    model is ANY, RUN or ACT — the three cases of `track_th_input_chan`. -/
+theorem generated_thread_modes :
+    ∀ s ∈ allSpecs, ∀ x ∈ s.thTrack, x = trackAny ∨ x = trackRun ∨ x = trackAct := by decide
+
+/-- Every CPU tracking mode is RUN (`connect_cpu` rejects anything else), and
+    the CPU tracks select on `th_running`, which is what `cpuView` reads. -/
+theorem generated_cpu_modes : ∀ s ∈ allSpecs, ∀ x ∈ s.cpuTrack, x = trackRun := by decide
 
 /-! ### Non-vacuity: a concrete thread + CPU network
 
